@@ -463,26 +463,91 @@ func optType(t *octosql.Type) string {
 	return EncodeType(*t)
 }
 
+// Operands are rebuilt the way the engine builds its types — unions by folding TypeSum over the alternatives, so their
+// slices have the spare capacity Go's append leaves — whenever that gives the very same type; after the operation every
+// operand must still encode as it did before (an operation of the type algebra must not write into its arguments).
+type c10Operand struct {
+	t   octosql.Type
+	enc string
+}
+
+var c10Operands []c10Operand
+
+func c10Refold(t octosql.Type) octosql.Type {
+	switch t.TypeID {
+	case octosql.TypeIDList:
+		if t.List.Element != nil {
+			e := c10Refold(*t.List.Element)
+			t.List.Element = &e
+		}
+	case octosql.TypeIDStruct:
+		fs := make([]octosql.StructField, len(t.Struct.Fields))
+		for i, f := range t.Struct.Fields {
+			fs[i] = octosql.StructField{Name: f.Name, Type: c10Refold(f.Type)}
+		}
+		t.Struct.Fields = fs
+	case octosql.TypeIDTuple:
+		es := make([]octosql.Type, len(t.Tuple.Elements))
+		for i, e := range t.Tuple.Elements {
+			es[i] = c10Refold(e)
+		}
+		t.Tuple.Elements = es
+	case octosql.TypeIDUnion:
+		if len(t.Union.Alternatives) >= 2 {
+			acc := c10Refold(t.Union.Alternatives[0])
+			for _, a := range t.Union.Alternatives[1:] {
+				acc = octosql.TypeSum(acc, c10Refold(a))
+			}
+			return acc
+		}
+	}
+	return t
+}
+
+func c10Parse(toks []string) (octosql.Type, []string) {
+	t, rest := ParseType(toks)
+	enc := EncodeType(t)
+	func() {
+		defer func() { recover() }()
+		if r := c10Refold(t); EncodeType(r) == enc {
+			t = r
+		}
+	}()
+	c10Operands = append(c10Operands, c10Operand{t, enc})
+	return t, rest
+}
+
 func driveC10(toks []string) string {
+	c10Operands = c10Operands[:0]
+	out := driveC10Inner(toks)
+	for _, o := range c10Operands {
+		if EncodeType(o.t) != o.enc {
+			return "operand-mutated " + out
+		}
+	}
+	return out
+}
+
+func driveC10Inner(toks []string) string {
 	switch toks[0] {
 	case "is":
-		a, r := ParseType(toks[1:])
-		b, _ := ParseType(r)
+		a, r := c10Parse(toks[1:])
+		b, _ := c10Parse(r)
 		return relStr(a.Is(b))
 	case "equals":
-		a, r := ParseType(toks[1:])
-		b, _ := ParseType(r)
+		a, r := c10Parse(toks[1:])
+		b, _ := c10Parse(r)
 		return boolStr(a.Equals(b))
 	case "sum":
-		a, r := ParseType(toks[1:])
-		b, _ := ParseType(r)
+		a, r := c10Parse(toks[1:])
+		b, _ := c10Parse(r)
 		return EncodeType(octosql.TypeSum(a, b))
 	case "inter":
-		a, r := ParseType(toks[1:])
-		b, _ := ParseType(r)
+		a, r := c10Parse(toks[1:])
+		b, _ := c10Parse(r)
 		return optType(octosql.TypeIntersection(a, b))
 	case "nonnull":
-		a, _ := ParseType(toks[1:])
+		a, _ := c10Parse(toks[1:])
 		n := octosql.NonNullable(a)
 		return relStr(n.Is(a)) + " " + EncodeType(n)
 	case "typeof":
@@ -490,22 +555,22 @@ func driveC10(toks []string) string {
 		return EncodeType(v.Type())
 	case "sound":
 		// Is(a,b), TypeSum(a,b), TypeSum(b,a); the oracle checks them against `conforms` on the given value
-		a, r := ParseType(toks[1:])
-		b, _ := ParseType(r)
+		a, r := c10Parse(toks[1:])
+		b, _ := c10Parse(r)
 		return relStr(a.Is(b)) + " " + EncodeType(octosql.TypeSum(a, b)) + " ; " + EncodeType(octosql.TypeSum(b, a))
 	case "lub":
-		a, r := ParseType(toks[1:])
-		b, r := ParseType(r)
-		t, _ := ParseType(r)
+		a, r := c10Parse(toks[1:])
+		b, r := c10Parse(r)
+		t, _ := c10Parse(r)
 		return relStr(a.Is(t)) + " " + relStr(b.Is(t)) + " " + relStr(octosql.TypeSum(a, b).Is(t))
 	case "trans":
-		a, r := ParseType(toks[1:])
-		b, r := ParseType(r)
-		c, _ := ParseType(r)
+		a, r := c10Parse(toks[1:])
+		b, r := c10Parse(r)
+		c, _ := c10Parse(r)
 		return relStr(a.Is(b)) + " " + relStr(b.Is(c)) + " " + relStr(a.Is(c))
 	case "laws":
-		a, r := ParseType(toks[1:])
-		b, _ := ParseType(r)
+		a, r := c10Parse(toks[1:])
+		b, _ := c10Parse(r)
 		s := octosql.TypeSum(a, b)
 		s2 := octosql.TypeSum(b, a)
 		aa := octosql.TypeSum(a, a)
